@@ -152,8 +152,7 @@ def run_kani(scratch, harness_names, jobs=8, timeout_s=1500, extra_args=(), log_
     cmd += list(extra_args)
     t0 = time.time()
     shell = f"ulimit -v {mem_gb * 1024 * 1024}; exec " + " ".join(map(_shq, cmd))
-    p = subprocess.run(["bash", "-c", shell], cwd=scratch.repo, env=ENV, stdout=subprocess.PIPE,
-                       stderr=subprocess.STDOUT, text=True)
+    p = run_group(["bash", "-c", shell], cwd=scratch.repo)
     wall = time.time() - t0
     if log_path:
         with open(log_path, "w") as f:
@@ -165,7 +164,7 @@ def run_kani(scratch, harness_names, jobs=8, timeout_s=1500, extra_args=(), log_
         return res
     d = json.load(open(out_json))
     res["tools"] = d.get("tools", {})
-    stats = {c["harness_id"]: c.get("cbmc_stats", {}) for c in d.get("cbmc", [])}
+    stats = {c["harness_id"]: (c.get("cbmc_stats") or {}) for c in d.get("cbmc", [])}
     for r in d.get("verification_results", {}).get("results", []):
         hid = r["harness_id"]
         short = hid.rsplit("::", 1)[-1]
@@ -191,6 +190,46 @@ def run_kani(scratch, harness_names, jobs=8, timeout_s=1500, extra_args=(), log_
     # stubs actually applied (Kani prints "- Stub: a -> b")
     res["stubs_applied"] = sorted(set(re.findall(r"- Stub: (.*)", p.stdout)))
     return res
+
+
+_CHILDREN = []
+
+
+def run_group(cmd, cwd, timeout=None):
+    """subprocess.run in its own process group (so a killed check takes cbmc with it)."""
+    import signal
+    proc = subprocess.Popen(cmd, cwd=cwd, env=ENV, stdout=subprocess.PIPE, stderr=subprocess.STDOUT, text=True,
+                            start_new_session=True)
+    _CHILDREN.append(proc)
+    try:
+        out, _ = proc.communicate(timeout=timeout)
+    except subprocess.TimeoutExpired:
+        os.killpg(proc.pid, signal.SIGKILL)
+        out, _ = proc.communicate()
+        out = (out or "") + "\n[verif] killed after timeout\n"
+    finally:
+        _CHILDREN.remove(proc)
+
+    class R:
+        pass
+    r = R()
+    r.stdout = out
+    r.returncode = proc.returncode
+    return r
+
+
+def install_signal_cleanup():
+    import signal
+
+    def handler(signum, frame):
+        for pr in list(_CHILDREN):
+            try:
+                os.killpg(pr.pid, signal.SIGKILL)
+            except Exception:
+                pass
+        raise KeyboardInterrupt()
+    signal.signal(signal.SIGTERM, handler)
+    signal.signal(signal.SIGINT, handler)
 
 
 def _shq(s):
@@ -226,7 +265,7 @@ def kani_counterexample(scratch, harness, timeout_s=900):
     cmd = ["cargo", "kani", "--lib", "-Z", "function-contracts", "-Z", "stubbing", "-Z", "unstable-options",
            "-Z", "concrete-playback", "--concrete-playback=print", "--output-format", "terse",
            "--harness-timeout", f"{timeout_s}s", "--exact", "--harness", harness["id"]]
-    p = subprocess.run(cmd, cwd=scratch.repo, env=ENV, stdout=subprocess.PIPE, stderr=subprocess.STDOUT, text=True)
+    p = run_group(cmd, cwd=scratch.repo)
     out = {"playback_cmd": " ".join(cmd)}
     m = PLAYBACK_RE.search(p.stdout)
     if not m:
@@ -253,7 +292,7 @@ def native_playback(scratch, rel_file, test_text):
         f.write("\n#[cfg(kani)]\n#[allow(unused)]\nmod __verif_replay {\n    use super::__verif_kani::*;\n"
                 + test_text + "\n}\n")
     cmd = ["cargo", "kani", "playback", "-Z", "concrete-playback", "--lib", "--", tname]
-    p = subprocess.run(cmd, cwd=scratch.repo, env=ENV, stdout=subprocess.PIPE, stderr=subprocess.STDOUT, text=True)
+    p = run_group(cmd, cwd=scratch.repo)
     reproduced = ("test result: FAILED" in p.stdout) and (tname in p.stdout)
     passed = "test result: ok. 1 passed" in p.stdout
     return {"native_replay_cmd": " ".join(cmd), "native_reproduced": reproduced,
